@@ -35,17 +35,29 @@ type Contract struct {
 	Props       []string
 	Requires    []Clause
 	Ensures     []Clause
+	Checks      []Clause // "check": proved at exit like a postcondition, but not exported to callers (may mention locals)
 	Modifies    []Clause
 	ModifiesAll bool
 	HasModifies bool
 	Loops       map[int]*LoopSpec
 	Flags       map[string]string
+	GhostSets   []GhostSet // ghost assignments performed when the function returns
 	Replay      []string
 	Extern      bool
 	File        string
 	Line        int
 	Kind        string // "func" | "fieldfunc" | "iface"
 	ParamNames  []string // optional parameter names given in the header: name(a, b)
+}
+
+// GhostSet: "ghostset v = e": the ghost variable v is assigned e (evaluated in
+// the state at return, old() = state at entry) when the function returns.
+// Ghost state has no run-time existence; the assignment is part of the
+// specification and is applied, not proved.
+type GhostSet struct {
+	Var  string
+	Expr Expr
+	Src  string
 }
 
 type SpecFn struct {
@@ -104,8 +116,8 @@ func NewSpecs() *Specs {
 var propsRe = regexp.MustCompile(`\[([A-Za-z0-9_, ]+)\]`)
 
 var clauseKeywords = map[string]bool{
-	"requires": true, "ensures": true, "modifies": true, "loop": true, "invariant": true,
-	"decreases": true, "replay:": true, "flag": true, "end": true,
+	"requires": true, "ensures": true, "check": true, "modifies": true, "loop": true, "invariant": true,
+	"decreases": true, "replay:": true, "flag": true, "end": true, "ghostset": true,
 }
 var topKeywords = map[string]bool{
 	"func": true, "extern": true, "iface": true, "spec": true, "axiom": true, "lemma": true, "ghost": true,
@@ -265,7 +277,7 @@ func (sp *Specs) ParseFile(path, pkgPath string) error {
 			}
 			sp.Contracts[cur.Full] = cur
 			curLoop = nil
-		case "requires", "ensures", "invariant", "decreases":
+		case "requires", "ensures", "invariant", "decreases", "check":
 			if cur == nil {
 				return fmt.Errorf("%s:%d: %s outside a func block", path, l.line, l.kw)
 			}
@@ -279,6 +291,9 @@ func (sp *Specs) ParseFile(path, pkgPath string) error {
 				curLoop = nil
 			case "ensures":
 				cur.Ensures = append(cur.Ensures, c)
+				curLoop = nil
+			case "check":
+				cur.Checks = append(cur.Checks, c)
 				curLoop = nil
 			case "invariant":
 				if curLoop == nil {
@@ -310,6 +325,20 @@ func (sp *Specs) ParseFile(path, pkgPath string) error {
 					cur.ModifiesAll = true
 				}
 			}
+		case "ghostset":
+			if cur == nil {
+				return fmt.Errorf("%s:%d: ghostset outside a func block", path, l.line)
+			}
+			name, rhs, ok := strings.Cut(l.rest, "=")
+			if !ok {
+				return fmt.Errorf("%s:%d: ghostset v = expr", path, l.line)
+			}
+			e, err := ParseExpr(strings.TrimSpace(rhs))
+			if err != nil {
+				return fmt.Errorf("%s:%d: %v", path, l.line, err)
+			}
+			cur.GhostSets = append(cur.GhostSets, GhostSet{Var: strings.TrimSpace(name), Expr: e, Src: l.rest})
+			curLoop = nil
 		case "loop":
 			if cur == nil {
 				return fmt.Errorf("%s:%d: loop outside a func block", path, l.line)
